@@ -154,6 +154,15 @@ def run(cx):
         gs = [gdesc(m, g) for g in guards_of(m, h, rt[0].b, mode="alias") if not g.neutral]
         has_parent = any(re.search(r"^match\(Process::parent\)=Some$", d) for d in gs)
         cx.ob("C15.R3", "return:has-parent-link", has_parent, "the return is made exactly when the child carries a parent link (guards %s)" % gs, rt[0].loc)
+        # ... and under nothing else: a terminated child ALWAYS returns (a caller that is not in memory right now - evicted,
+        # not yet reloaded after a restart - is loaded by the returned action; skipping the return leaves its act open for ever)
+        from vlib.model import conditions_of
+        alld = sorted({gdesc(m, g) for g in conditions_of(m, h, rt[0].b, mode="alias") if not g.neutral})
+        allowed = [r"^match\(Process::parent\)=Some$", r"^TaskState::is_(running|pending|error|completed)=", r"^match\(.*Process::root.*\)=Some$", r"^match\(.*\)=Some$" if False else r"^$"]
+        extra = [d for d in alld if not any(re.search(p_, d) for p_ in allowed)]
+        cx.ob("C15.R3", "return:unconditional", not extra,
+              "a terminated child with a parent link always returns to the calling act (conditions on the call: %s)%s" % (
+                  alld, "" if not extra else " - the return also depends on %s" % extra), rt[0].loc)
         args = [pa.root(h, a) for a in rt[0].args[1:3]]
         cx.ob("C15.R3", "return:link-values", all(a[0] == "call" and a[1].endswith("Process::parent") for a in args), "the (pid, tid) returned to are the values of `proc.parent()`", rt[0].loc)
     p = m.one(r"^acts::scheduler::process::process::Process::parent$")
@@ -164,7 +173,7 @@ def run(cx):
     sc = [c for c in an.calls() if c.q == T.Q_SET_STATE and pa.root(an, c.args[1])[0] == "agg" and pa.root(an, c.args[1])[2] == "Completed"]
     ok = len(sc) == 1 and any(g.root[0] == "call" and g.root[1].endswith("Task::is_auto_complete") and g.truth is True for g in guards_of(m, an, sc[0].b, mode="alias"))
     cx.ob("C15.R3", "act:stays-open", ok, "Act::next completes the act only if `is_auto_complete()` (a sub-process act stays open until the return action)", sc[0].loc if sc else an.loc())
-    cx.floor("C15.R3", 5)
+    cx.floor("C15.R3", 6)
 
 
 def _ctx_task_block(f):
